@@ -20,6 +20,7 @@ func init() {
 	families["raw"] = genRaw
 	executors["raw"] = execRaw
 	executors["rawdec"] = execRawDec
+	executors["rawdech"] = execRawDecUsed
 }
 
 var errRawCallback = errors.New("callback failed")
@@ -81,6 +82,55 @@ func execRaw(args []string) string {
 	return fmt.Sprintf("%s n=%d q=%d segs=%d l=%016x d=%016x", rawErrClass(err), n, seqs, calls, g.l, g.d)
 }
 
+// rawDecodeUsed: the full decoder's answer on `b` (as fragDecode: checksum ignored, no expansion, definition and message
+// listeners) from a Decoder that was USED before: created on `pre`, Next + PeekFileId (which parses the definitions up to the
+// file_id message), then — mode 1 — Discard, then Reset onto `b`. C16 quantifies over streams, not over what the decoder did
+// before: the answer must be the one a new decoder gives.
+func rawDecodeUsed(pre, b []byte, mode int) string {
+	var junk strings.Builder
+	old := decoder.New(bytes.NewReader(pre), decoder.WithIgnoreChecksum(), decoder.WithMesgDefListener(fragRec{&junk, false}))
+	if old.Next() {
+		old.PeekFileId()
+		if mode == 1 {
+			old.Discard()
+		}
+	}
+	var sb strings.Builder
+	rec := fragRec{&sb, false}
+	old.Reset(bytes.NewReader(b), decoder.WithMesgDefListener(rec), decoder.WithMesgListener(rec),
+		decoder.WithNoComponentExpansion(), decoder.WithIgnoreChecksum())
+	dec := old
+	status := "end"
+	for dec.Next() {
+		fit, err := dec.Decode()
+		if err != nil {
+			status = "err:" + fragErrClass(err)
+			break
+		}
+		h := fit.FileHeader
+		fmt.Fprintf(&sb, " S%d.%d.%d.%d.%d.%d.%d", h.Size, h.ProtocolVersion, h.ProfileVersion, h.DataSize, h.CRC, fit.CRC, len(fit.Messages))
+	}
+	if status == "end" {
+		if _, err := dec.Decode(); err != nil {
+			fmt.Fprintf(&sb, " after=%s", fragErrClass(err))
+		}
+	}
+	return status + sb.String()
+}
+
+// `rawdech m:<0|1> pre:<hex> b:<hex>`: as `rawdec b:<hex>`, the full decoder being a used one (see rawDecodeUsed)
+func execRawDecUsed(args []string) string {
+	if len(args) != 3 || !strings.HasPrefix(args[0], "m:") || !strings.HasPrefix(args[1], "pre:") || !strings.HasPrefix(args[2], "b:") {
+		return "bad-op"
+	}
+	pre, err1 := hex.DecodeString(args[1][4:])
+	b, err2 := hex.DecodeString(args[2][2:])
+	if err1 != nil || err2 != nil || (args[0] != "m:0" && args[0] != "m:1") {
+		return "bad-op"
+	}
+	return rawDecPair(rawDecodeUsed(pre, b, int(args[0][2]-'0')), b)
+}
+
 func execRawDec(args []string) string {
 	if len(args) != 1 || !strings.HasPrefix(args[0], "b:") {
 		return "bad-op"
@@ -89,7 +139,11 @@ func execRawDec(args []string) string {
 	if err != nil {
 		return "bad-op"
 	}
-	dec := fragDecode(bytes.NewReader(b), false, false, 0, false)
+	return rawDecPair(fragDecode(bytes.NewReader(b), false, false, 0, false), b)
+}
+
+// the full decoder's answer beside the raw decoder's itemised answer on the same stream
+func rawDecPair(dec string, b []byte) string {
 	var sb strings.Builder
 	seqs := 0
 	n, rerr := decoder.NewRaw().Decode(bytes.NewReader(b), func(flag decoder.RawFlag, p []byte) error {
@@ -109,6 +163,36 @@ func execRawDec(args []string) string {
 		return nil
 	})
 	return fmt.Sprintf("dec=%s raw=%s;%d;%d%s", dec, rawErrClass(rerr), n, seqs, sb.String())
+}
+
+// rawDropFirstDef cuts the first record out of a stream when it is a definition (header bit 6 set, bit 7 clear) and
+// repairs the data size: what follows uses a local message type its own stream no longer defines
+func rawDropFirstDef(b []byte) []byte {
+	if len(b) < 14 || (b[0] != 12 && b[0] != 14) {
+		return b
+	}
+	hs := int(b[0])
+	if len(b) < hs+6 || b[hs]&0xC0 != 0x40 {
+		return b
+	}
+	l := 6 + 3*int(b[hs+5])
+	if b[hs]&0x20 != 0 {
+		if len(b) < hs+l+1 {
+			return b
+		}
+		l += 1 + 3*int(b[hs+l])
+	}
+	if len(b) < hs+l {
+		return b
+	}
+	out := append([]byte(nil), b[:hs]...)
+	out = append(out, b[hs+l:]...)
+	ds := uint32(out[4]) | uint32(out[5])<<8 | uint32(out[6])<<16 | uint32(out[7])<<24
+	if ds >= uint32(l) {
+		ds -= uint32(l)
+	}
+	out[4], out[5], out[6], out[7] = byte(ds), byte(ds>>8), byte(ds>>16), byte(ds>>24)
+	return out
 }
 
 func genRaw(emit func(string), tier string, rng *Rng) {
@@ -138,6 +222,16 @@ func genRaw(emit func(string), tier string, rng *Rng) {
 		count("in:" + kinds[i])
 		emit("raw b:" + hex.EncodeToString(b))
 		emit("rawdec b:" + hex.EncodeToString(b))
+		if i > 0 && rng.Intn(3) == 0 {
+			// the same comparison with a USED full decoder: PeekFileId (+ Discard) on another stream of the pool, then Reset;
+			// half of the time the new stream has lost its first definition (a record without definition in ITS stream)
+			pre, nb := pool[rng.Intn(i)], b
+			if rng.Bool() && len(b) > 40 {
+				nb = rawDropFirstDef(b)
+			}
+			emit(fmt.Sprintf("rawdech m:%d pre:%s b:%s", rng.Intn(2), hex.EncodeToString(pre), hex.EncodeToString(nb)))
+			count("used-decoder")
+		}
 		// fragmenting readers (io.ReadFull straight on the reader)
 		if rng.Intn(2) == 0 {
 			cs := rdrFinish(rdrRandSchedule(rng, L, 1+rng.Intn(5)), rng.Intn(3))
